@@ -47,12 +47,53 @@ type Case struct {
 	// possibly empty) instead of from all files; it is held fixed all the same
 	IdentSubset bool  `json:"identSubset,omitempty"`
 	IdentFrom   []int `json:"identFrom,omitempty"`
+	// hand-built shapes (c07_shapes_test.go): the kind of each file ("" = a jgen unit, a controller
+	// or an enum file, told apart by name), the further types a file declares (nested ones, a second
+	// top-level one; pkg.Name), the shapes the generator chose (labels only)
+	Kind []string   `json:"kind,omitempty"`
+	More [][]string `json:"more,omitempty"`
+	Feat []string   `json:"feat,omitempty"`
+}
+
+// owns reports whether the model entry or API entry named full (pkg.Type) belongs to file i.
+func (c Case) owns(i int, full string) bool {
+	if full == c.Class[i] {
+		return true
+	}
+	if i < len(c.More) {
+		for _, m := range c.More[i] {
+			if m == full {
+				return true
+			}
+		}
+	}
+	return false
+}
+
+// kindOf names the shape of file i.
+func (c Case) kindOf(i int) string {
+	if i < len(c.Kind) && c.Kind[i] != "" {
+		return c.Kind[i]
+	}
+	base := filepath.Base(c.Files[i].Path)
+	switch {
+	case strings.HasPrefix(base, "Ctl"):
+		return "ctl"
+	case strings.HasPrefix(base, "Level"):
+		return "enum"
+	case strings.HasPrefix(base, "Uses"):
+		return "enumuser"
+	}
+	return "unit"
 }
 
 func controller(t *rapid.T, idx int, pkg string) (jgen.File, string) {
 	name := fmt.Sprintf("Ctl%d", idx)
 	var b strings.Builder
-	fmt.Fprintf(&b, "package %s;\n\nimport org.springframework.web.bind.annotation.*;\n\n", pkg)
+	if pkg != "" {
+		fmt.Fprintf(&b, "package %s;\n\n", pkg)
+	}
+	b.WriteString("import org.springframework.web.bind.annotation.*;\n\n")
 	b.WriteString(rapid.SampledFrom([]string{"@RestController\n", "@Controller\n"}).Draw(t, "ctlAnn"))
 	if rapid.Bool().Draw(t, "hasBase") {
 		base := rapid.SampledFrom([]string{"/alpha", "/beta/v1", "/g"}).Draw(t, "base")
@@ -77,8 +118,11 @@ func controller(t *rapid.T, idx int, pkg string) (jgen.File, string) {
 		fmt.Fprintf(&b, "    public String handle%d(%s) {\n        return \"x\";\n    }\n\n", k, param)
 	}
 	b.WriteString("}\n")
-	dir := strings.ReplaceAll(pkg, ".", "/")
-	return jgen.File{Path: dir + "/" + name + ".java", Text: b.String()}, pkg + "." + name
+	path := name + ".java"
+	if pkg != "" {
+		path = strings.ReplaceAll(pkg, ".", "/") + "/" + path
+	}
+	return jgen.File{Path: path, Text: b.String()}, pkg + "." + name
 }
 
 var reusedNames = []string{"repo", "item", "value", "it"}
@@ -90,7 +134,7 @@ func enumFile(t *rapid.T, idx int, pkg string) (jgen.File, string, []string) {
 	consts := []string{"LOW", "HIGH", "MID"}[:rapid.IntRange(1, 3).Draw(t, "nConsts")]
 	var b strings.Builder
 	fmt.Fprintf(&b, "package %s;\n\n", pkg)
-	rich := rapid.IntRange(0, 2).Draw(t, "enumForm")
+	rich := rapid.IntRange(0, 3).Draw(t, "enumForm")
 	impl := ""
 	if rapid.IntRange(0, 3).Draw(t, "enumImplements") == 3 {
 		impl = " implements Runnable"
@@ -107,6 +151,9 @@ func enumFile(t *rapid.T, idx int, pkg string) (jgen.File, string, []string) {
 		fmt.Fprintf(&b, "    %s;\n\n", strings.Join(consts, ", "))
 		v := rapid.SampledFrom(reusedNames).Draw(t, "enumVar")
 		fmt.Fprintf(&b, "    public boolean above(%s %s) {\n        return %s.ordinal() < ordinal();\n    }\n", name, v, v)
+	case 3: // a constant with a class body, a method that calls its inherited version
+		cs := append([]string{consts[0] + " {\n        @Override\n        public String label() {\n            return \"first\";\n        }\n    }"}, consts[1:]...)
+		fmt.Fprintf(&b, "    %s;\n\n    public String label() {\n        return super.toString();\n    }\n", strings.Join(cs, ", "))
 	default: // constants with arguments, a field, a constructor and an accessor
 		var cs []string
 		for k, c := range consts {
@@ -186,24 +233,86 @@ func enumUser(t *rapid.T, idx int, pkg, enumPkg, enum string, consts []string) (
 }
 
 func gen(t *rapid.T) Case {
-	p := jgen.GenProject(t, jgen.Opts{Bodies: true, NameReuse: true, Interfaces: true, Wide: true, RichDecl: true, MaxUnits: 4, MaxMethods: 3, ExtraImps: rapid.Bool().Draw(t, "extraImps"), DupNames: rapid.Bool().Draw(t, "dupNames")})
+	o := jgen.Opts{Bodies: true, NameReuse: true, Interfaces: true, Wide: true, RichDecl: true, MaxUnits: 4, MaxMethods: 3, ExtraImps: rapid.Bool().Draw(t, "extraImps"), DupNames: rapid.Bool().Draw(t, "dupNames")}
+	var feat []string
+	if rapid.Bool().Draw(t, "moreUnitForms") {
+		// further forms of the jgen units, each behind its own draw
+		for _, f := range []struct {
+			name string
+			on   *bool
+		}{
+			{"anonymous_class_arguments", &o.Anon}, {"names_reused_inside_a_unit", &o.ScopedReuse}, {"unqualified_calls_of_inherited_or_static_imported_methods", &o.UnqualifiedForeign},
+			{"super_calls_of_declared_methods", &o.SuperCallsDeclared}, {"wildcard_imports_of_project_packages", &o.WildcardProjectImports}, {"method_names_shared_between_classes", &o.SharedMethodNames},
+			{"further_loop_forms", &o.Loops},
+		} {
+			if rapid.IntRange(0, 2).Draw(t, "unitForm_"+f.name) == 2 {
+				*f.on = true
+				feat = append(feat, "units_with_"+f.name)
+			}
+		}
+	}
+	p := jgen.GenProject(t, o)
 	var c Case
 	for i, u := range p.Units {
 		c.Files = append(c.Files, p.Files[i])
 		c.Class = append(c.Class, u.FullName())
 	}
+	sh := newShaper(t, &c, p)
+	for _, f := range feat {
+		sh.feat[f] = true
+	}
 	nc := rapid.IntRange(0, 3).Draw(t, "nControllers")
+	type ctlID struct {
+		pkg string
+		idx int
+	}
+	var ctls []ctlID
 	for k := 0; k < nc; k++ {
-		f, cls := controller(t, k, rapid.SampledFrom([]string{"com.acme", "com.acme.web.api"}).Draw(t, "ctlPkg"))
+		id := ctlID{pkg: rapid.SampledFrom([]string{"com.acme", "com.acme.web.api"}).Draw(t, "ctlPkg"), idx: k}
+		// 0-2: as ever; 3: the simple name of an earlier controller, in another package; 4: in the default package; 5: other spellings
+		variant := rapid.IntRange(0, 5).Draw(t, "ctlVariant")
+		if variant == 4 {
+			id.pkg = ""
+		}
+		if variant == 3 && k > 0 {
+			twin := ctlID{pkg: id.pkg, idx: ctls[rapid.IntRange(0, k-1).Draw(t, "ctlTwinOf")].idx}
+			free := true
+			for _, x := range ctls {
+				if x == twin {
+					free = false
+				}
+			}
+			if free {
+				id = twin
+				sh.feat["controllers_of_one_simple_name_in_two_packages"] = true
+			}
+		}
+		ctls = append(ctls, id)
+		if variant == 5 {
+			sh.richController(fmt.Sprintf("Ctl%d", id.idx), id.pkg)
+			continue
+		}
+		f, cls := controller(t, id.idx, id.pkg)
+		if id.pkg == "" {
+			sh.feat["file_in_default_package"] = true
+		}
 		c.Files = append(c.Files, f)
 		c.Class = append(c.Class, cls)
 	}
 	// enums (types the identifier pass does not list) and classes that use them
 	nEnums := rapid.IntRange(0, 2).Draw(t, "nEnums")
 	nUsers := 0
+	firstEnumPkg := ""
 	for k := 0; k < nEnums; k++ {
 		epkg := rapid.SampledFrom([]string{"com.acme", "com.acme.core", "org.demo"}).Draw(t, "enumPkg")
-		f, cls, consts := enumFile(t, k, epkg)
+		idx := k
+		if k == 0 {
+			firstEnumPkg = epkg
+		} else if epkg != firstEnumPkg && rapid.IntRange(0, 2).Draw(t, "enumTwin") == 2 {
+			idx = 0 // the first enum's simple name, in another package
+			sh.feat["enums_of_one_simple_name_in_two_packages"] = true
+		}
+		f, cls, consts := enumFile(t, idx, epkg)
 		c.Files = append(c.Files, f)
 		c.Class = append(c.Class, cls)
 		for j, nu := 0, rapid.IntRange(0, 2).Draw(t, "nEnumUsers"); j < nu; j++ {
@@ -217,6 +326,7 @@ func gen(t *rapid.T) Case {
 			c.Class = append(c.Class, ucls)
 		}
 	}
+	sh.extraShapes()
 	if len(c.Files) < 2 {
 		f, cls := controller(t, 9, "com.acme")
 		c.Files = append(c.Files, f)
@@ -244,6 +354,7 @@ func gen(t *rapid.T) Case {
 		c.IdentFrom = append([]int{}, perm[:n]...)
 		sort.Ints(c.IdentFrom)
 	}
+	sh.finish()
 	return c
 }
 
@@ -322,7 +433,7 @@ func (w *world) run(op Op, tag string) (map[int]string, string) {
 		for _, i := range op.List {
 			var mine []core_domain.CodeDataStruct
 			for _, ds := range model {
-				if ds.Package+"."+ds.NodeName == w.c.Class[i] {
+				if w.c.owns(i, ds.Package+"."+ds.NodeName) {
 					fs := append([]core_domain.CodeFunction(nil), ds.Functions...)
 					sort.SliceStable(fs, func(a, b int) bool {
 						if fs[a].Position.StartLine != fs[b].Position.StartLine {
@@ -371,7 +482,7 @@ func (w *world) run(op Op, tag string) (map[int]string, string) {
 			for _, i := range op.List {
 				var mine []api_domain.RestAPI
 				for _, a := range apis {
-					if a.PackageName+"."+a.ClassName == w.c.Class[i] {
+					if w.c.owns(i, a.PackageName+"."+a.ClassName) {
 						mine = append(mine, a)
 					}
 				}
@@ -382,10 +493,9 @@ func (w *world) run(op Op, tag string) (map[int]string, string) {
 	return out, panicked
 }
 
-
 func check(c Case) pbt.Verdict {
 	for i, f := range c.Files {
-		if base := filepath.Base(f.Path); strings.HasPrefix(base, "Level") || strings.HasPrefix(base, "Uses") {
+		if c.kindOf(i) != "unit" {
 			if errs := jgen.SyntaxErrors(f.Text); len(errs) > 0 {
 				return pbt.Verdict{Skip: true, Classes: []string{"rejected_by_parser:" + c.Class[i]}}
 			}
@@ -482,7 +592,92 @@ func check(c Case) pbt.Verdict {
 		v.Classes = append(v.Classes, "has_controller")
 	}
 	v.Classes = append(v.Classes, domainLabels(c)...)
+	v.Classes = append(v.Classes, shapeLabels(c)...)
 	return v
+}
+
+// walkLess orders two relative paths the way a directory walk visits them (lexical, per component).
+func walkLess(a, b string) bool {
+	x, y := strings.Split(a, "/"), strings.Split(b, "/")
+	for k := 0; k < len(x) && k < len(y); k++ {
+		if x[k] != y[k] {
+			return x[k] < y[k]
+		}
+	}
+	return len(x) < len(y)
+}
+
+// processed lists the files of an operation in the order the pass works through them: the list
+// order for the identifier and full passes, the order of the directory walk for the others.
+func (c Case) processed(op Op) []int {
+	list := append([]int(nil), op.List...)
+	if op.Pass == "bs" || op.Pass == "api" {
+		sort.Slice(list, func(a, b int) bool { return walkLess(c.Files[list[a]].Path, c.Files[list[b]].Path) })
+	}
+	return list
+}
+
+// shapeLabels describes the hand-built shapes of the case and where the histories put them
+// (labels only): which shapes were drawn, and for every pass which kind of file was worked on
+// right after which other kind in the same process (the operations of one pass share that pass's
+// package-level state, whatever other passes run in between).
+func shapeLabels(c Case) []string {
+	set := map[string]bool{}
+	for _, f := range c.Feat {
+		set["shape_"+f] = true
+	}
+	fresh := map[string]bool{"nest": true, "iface": true, "base": true, "sub": true, "job": true, "barectl": true, "svc": true, "impl": true, "proxy": true}
+	for i := range c.Files {
+		if k := c.kindOf(i); fresh[k] {
+			set["has_"+k+"_file"] = true
+		}
+	}
+	last := map[string]string{}
+	imported := map[string]bool{} // service interfaces imported by a file the API pass has worked on
+	for _, op := range c.Ops {
+		for _, i := range c.processed(op) {
+			k := c.kindOf(i)
+			if op.Pass == "api" {
+				for j := range c.Files {
+					if c.kindOf(j) != "svc" {
+						continue
+					}
+					simple := c.Class[j][strings.LastIndex(c.Class[j], ".")+1:]
+					switch {
+					case strings.Contains(c.Files[i].Text, "import "+c.Class[j]+";"):
+						imported[c.Class[j]] = true
+					case k == "impl" && imported[c.Class[j]] && strings.Contains(c.Files[i].Text, " implements "+simple+" "):
+						set["api_pass_implementation_without_import_after_file_that_imports_the_interface"] = true
+					}
+				}
+			}
+			prev, seen := last[op.Pass]
+			last[op.Pass] = k
+			if !seen {
+				continue
+			}
+			switch {
+			case op.Pass == "api" && k == "barectl" && prev == "ctl":
+				set["api_pass_class_without_stereotype_right_after_controller"] = true
+			case op.Pass == "api" && k == "proxy" && prev == "impl":
+				set["api_pass_proxy_right_after_implementation"] = true
+			case op.Pass == "api" && k == "impl" && (prev == "proxy" || prev == "impl"):
+				set["api_pass_implementation_right_after_file_that_imports_the_interface"] = true
+			case op.Pass != "api" && fresh[k] && prev == k:
+				set["hand_built_file_right_after_another_of_its_kind"] = true
+			case op.Pass != "api" && fresh[k]:
+				set["hand_built_file_right_after_file_of_other_kind"] = true
+			case op.Pass != "api" && fresh[prev]:
+				set["other_file_right_after_hand_built_file"] = true
+			}
+		}
+	}
+	var out []string
+	for k := range set {
+		out = append(out, k)
+	}
+	sort.Strings(out)
+	return out
 }
 
 // domainLabels describes the widened part of the case (labels only).
@@ -681,16 +876,25 @@ type GraphCase struct {
 	Root  string     `json:"root"`
 	Kind  string     `json:"kind"` // call | lookup | rcall | api
 	Times int        `json:"times"`
+	// Steps, when present, is the history of generations (instead of Times generations of Kind for Root)
+	Steps []GraphStep `json:"steps,omitempty"`
+}
+
+// GraphStep is one generation of a history.
+type GraphStep struct {
+	Kind string `json:"kind"`
+	Root string `json:"root"`
+	Half bool   `json:"half,omitempty"` // generated from the first half of the model's classes only (another input)
 }
 
 func genGraph(t *rapid.T) GraphCase {
 	m := mgen.Gen(t, mgen.Options{})
 	methods := m.Methods()
 	root := "zz.Absent.nothing"
+	var busy []string
 	if len(methods) > 0 {
 		root = rapid.SampledFrom(methods).Draw(t, "root")
 		calls := m.Calls()
-		var busy []string
 		for _, x := range methods {
 			if len(calls[x]) > 0 {
 				busy = append(busy, x)
@@ -700,7 +904,27 @@ func genGraph(t *rapid.T) GraphCase {
 			root = rapid.SampledFrom(busy).Draw(t, "busy")
 		}
 	}
-	return GraphCase{Model: m, Root: root, Kind: rapid.SampledFrom([]string{"call", "lookup", "rcall", "api"}).Draw(t, "kind"), Times: rapid.IntRange(2, 4).Draw(t, "times")}
+	kinds := []string{"call", "lookup", "rcall", "api"}
+	c := GraphCase{Model: m, Root: root, Kind: rapid.SampledFrom(kinds).Draw(t, "kind"), Times: rapid.IntRange(2, 4).Draw(t, "times")}
+	if rapid.IntRange(0, 2).Draw(t, "mixedHistory") == 2 {
+		// a history of different generations in one process: the first one comes again at the end,
+		// with one to four generations of other kinds, for other roots or from another model in between
+		pool := []GraphStep{{Kind: c.Kind, Root: c.Root}}
+		for k, n := 0, rapid.IntRange(1, 2).Draw(t, "nOtherGenerations"); k < n; k++ {
+			st := GraphStep{Kind: rapid.SampledFrom(kinds).Draw(t, "stepKind"), Root: c.Root}
+			if len(busy) > 0 && rapid.Bool().Draw(t, "stepOtherRoot") {
+				st.Root = rapid.SampledFrom(busy).Draw(t, "stepRoot")
+			}
+			st.Half = rapid.IntRange(0, 3).Draw(t, "stepOtherModel") == 3
+			pool = append(pool, st)
+		}
+		c.Steps = append(c.Steps, pool[0])
+		for k, n := 0, rapid.IntRange(1, 4).Draw(t, "nBetween"); k < n; k++ {
+			c.Steps = append(c.Steps, pool[rapid.IntRange(0, len(pool)-1).Draw(t, "between")])
+		}
+		c.Steps = append(c.Steps, pool[0])
+	}
+	return c
 }
 
 func edgesOf(text, first string, attrs ...string) (string, error) {
@@ -717,57 +941,104 @@ func edgesOf(text, first string, attrs ...string) (string, error) {
 }
 
 func checkGraph(c GraphCase) pbt.Verdict {
-	resetAll() // the start of a fresh process; nothing is reset between the repetitions
-	model := c.Model.ToCoca()
-	var results []string
-	for k := 0; k < c.Times; k++ {
-		var text, first string
+	resetAll() // the start of a fresh process; nothing is reset between the generations
+	steps := c.Steps
+	if len(steps) == 0 {
+		for k := 0; k < c.Times; k++ {
+			steps = append(steps, GraphStep{Kind: c.Kind, Root: c.Root})
+		}
+	}
+	whole := c.Model.ToCoca()
+	half := mgen.Model{Classes: c.Model.Classes[:len(c.Model.Classes)/2]}.ToCoca()
+	first := map[GraphStep]string{}
+	firstAt := map[GraphStep]int{}
+	labels := map[string]bool{}
+	nontrivial := false
+	for k, st := range steps {
+		model := whole
+		if st.Half {
+			model = half
+		}
+		var text, head string
 		var attrs []string
 		var sizes string
+		usedUp := false
 		p := pbt.Call(func() {
-			switch c.Kind {
+			switch st.Kind {
 			case "call", "lookup":
-				text = call.NewCallGraph().Analysis(c.Root, model, c.Kind == "lookup")
-				first, attrs = "digraph G {", []string{"rankdir = LR;"}
+				text = call.NewCallGraph().Analysis(st.Root, model, st.Kind == "lookup")
+				head, attrs = "digraph G {", []string{"rankdir = LR;"}
+				usedUp = call.VerifLoopCountCall() >= call.VerifBudgetCall()
 			case "rcall":
-				text = rcall.NewRCallGraph().Analysis(c.Root, model, func(map[string][]string) {})
-				first = "digraph G {"
+				text = rcall.NewRCallGraph().Analysis(st.Root, model, func(map[string][]string) {})
+				head = "digraph G {"
+				usedUp = rcall.VerifLoopCountRcall() >= rcall.VerifBudgetRcall()
 			default:
-				i := strings.LastIndex(c.Root, ".")
-				cls := c.Root[:i]
+				i := strings.LastIndex(st.Root, ".")
+				cls := st.Root[:i]
 				j := strings.LastIndex(cls, ".")
-				apis := []api_domain.RestAPI{{HttpMethod: "GET", Uri: "/a", PackageName: cls[:j], ClassName: cls[j+1:], MethodName: c.Root[i+1:]}}
+				apis := []api_domain.RestAPI{{HttpMethod: "GET", Uri: "/a", PackageName: cls[:j], ClassName: cls[j+1:], MethodName: st.Root[i+1:]}}
 				var counts []api_domain.CallAPI
 				text, counts = call.NewCallGraph().AnalysisByFiles(apis, model, nil)
-				first = "digraph G {"
+				head = "digraph G {"
 				sizes = canon(counts)
+				usedUp = call.VerifLoopCountCall() >= call.VerifBudgetCall()
 			}
 		})
 		if p != "" {
-			return pbt.Fail("%s graph, repetition %d panicked: %s", c.Kind, k+1, p)
+			return pbt.Fail("%s graph, generation %d panicked: %s", st.Kind, k+1, p)
 		}
-		es, err := edgesOf(text, first, attrs...)
+		es, err := edgesOf(text, head, attrs...)
 		if err != nil {
-			return pbt.Fail("%s graph, repetition %d is not well-formed: %v\n%s", c.Kind, k+1, err, text)
+			return pbt.Fail("%s graph, generation %d is not well-formed: %v\n%s", st.Kind, k+1, err, text)
 		}
-		results = append(results, es+sizes)
-	}
-	for k := 1; k < len(results); k++ {
-		if results[k] != results[0] {
-			return pbt.Fail("%s graph of %s: generation #%d in the same process differs from the first\nfirst:\n%s\n#%d:\n%s", c.Kind, c.Root, k+1, results[0], k+1, results[k])
+		result := es + sizes
+		labels["graph_"+st.Kind] = true
+		if usedUp {
+			labels["graph_"+st.Kind+"_expansion_budget_used_up"] = true
+		}
+		if st.Half {
+			labels["graph_history_with_generation_from_another_model"] = true
+		}
+		if st.Root != steps[0].Root {
+			labels["graph_history_with_generation_for_another_root"] = true
+		}
+		if st.Kind != steps[0].Kind {
+			labels["graph_history_with_generation_of_another_kind"] = true
+		}
+		if k == 0 {
+			nontrivial = strings.Count(result, "->") >= 2
+		}
+		if want, seen := first[st]; seen {
+			if result != want {
+				return pbt.Fail("%s graph of %s: generation #%d in the same process differs from generation #%d of the same graph\n#%d:\n%s\n#%d:\n%s", st.Kind, st.Root, k+1, firstAt[st]+1, firstAt[st]+1, want, k+1, result)
+			}
+		} else {
+			first[st], firstAt[st] = result, k
 		}
 	}
-	return pbt.Verdict{NonTrivial: strings.Count(results[0], "->") >= 2, Classes: []string{"graph_" + c.Kind}}
+	if len(c.Steps) > 0 {
+		labels["graph_history_mixed"] = true
+	}
+	v := pbt.Verdict{NonTrivial: nontrivial}
+	for l := range labels {
+		v.Classes = append(v.Classes, l)
+	}
+	sort.Strings(v.Classes)
+	return v
 }
 
 func init() {
 	pbt.SetProperty("C07")
 	jgen.SetExcluded(pbt.Excluded)
-	pbt.Describe("(files) rapid-generated sets of 2-13 Java files: conventional units from jgen with variable names deliberately reused across files and methods with different types (repo, item, value, it), with and without imports/superclass, plus 0-3 Spring controllers with and without a class-level mapping whose parameters reuse the same names, plus 0-2 top-level enums (constants only, with a method, or with arguments, field, constructor and accessor; a type of its package that the identifier pass does not list) each with 0-2 classes that use it through fields, parameters, locals, static calls, a switch and a for-each over values(), from the enum's own package without an import or from another package with a single-type import; a history of 2-8 operations `run pass P over list L` with P in {identifier, full, bad-smell, API} and L a random permutation of a random sub-list, all in one process with no reset in between; the identifier set and dependency model are computed once and held fixed: the identifier set from all files or (one case in three) from a strict, possibly empty, subset of them, so that the histories also analyse files the identifier set does not know, before or after the files that refer to their types. Oracle (metamorphic): the canonical per-file slice of every result equals the result for that file analysed alone from a clean state (clean state = reset hooks; for one case in ten additionally a fresh sub-process per file, which must agree). (graphs) rapid-generated call models; call graph / call graph with lookup / reverse call graph / API graph generated 2-4 times in a row after a clean start: all repetitions equal the first as edge multisets (and sizes). Non-trivial = a history with more than one file or more than one operation; a graph with >= 2 edges. Distinct = hash of the case.",
+	pbt.Describe("(files) rapid-generated sets of 2-25 Java files: conventional units from jgen with variable names deliberately reused across files and methods with different types (repo, item, value, it), with and without imports/superclass (for half of the cases also, each behind its own draw: anonymous classes as arguments, names reused inside a unit, unqualified calls of inherited or statically imported methods, super calls of declared methods, wildcard imports of project packages, method names shared between classes, further loop forms), plus 0-3 Spring controllers with and without a class-level mapping whose parameters reuse the same names (also: two controllers of one simple name in two packages, a controller in the default package, and controllers in other spellings: stereotype after the class-level mapping, class-level @RequestMapping without value or with path= / value= and further elements, method-level @RequestMapping with value and method, value= / path= forms, a request body typed by a class of the case, plain methods between the handlers), plus 0-2 top-level enums (constants only, with a method, with arguments, field, constructor and accessor, or with a constant that has a class body and a method calling super; possibly two enums of one simple name in two packages; a type of its package that the identifier pass does not list) each with 0-2 classes that use it through fields, parameters, locals, static calls, a switch and a for-each over values(), from the enum's own package without an import or from another package with a single-type import; for half of the cases plus 1-3 hand-built groups of one to four files (c07_shapes_test.go), each in one of four packages or in the default package (no package declaration): a class with a nested type (static, inner, private, interface, enum; first, between or after the members; possibly nested two levels deep; inner creation `this.new In()`), possibly with a second top-level type in the file and possibly with a second file of the same build; an interface with default and static methods and @Override on abstract methods, also as the last member; an abstract superclass with protected fields and a subclass that uses the inherited names (which the file does not declare) in methods, field initialisers before and after the members, instance and static initialiser blocks, super(...) and super.m() calls, possibly with a static import of an unqualified callee; a class with anonymous classes as argument, as local initialiser and in field initialisers; a class that carries Spring mapping annotations but no stereotype; an interface whose methods carry @ServiceMethod with one to three implementing classes (in the interface's package without import, or elsewhere with a single-type import or with the package imported on demand) and possibly a class that imports the interface and declares the same methods without implementing it (this last group is also drawn on its own for one case in five). A history of 2-8 operations `run pass P over list L` with P in {identifier, full, bad-smell, API} and L a random permutation of a random sub-list, all in one process with no reset in between; the identifier set and dependency model are computed once and held fixed: the identifier set from all files or (one case in three) from a strict, possibly empty, subset of them, so that the histories also analyse files the identifier set does not know, before or after the files that refer to their types. Oracle (metamorphic): the canonical per-file slice of every result (the entries named like a type the file declares, nested and second top-level ones included) equals the result for that file analysed alone from a clean state (clean state = reset hooks; for one case in ten additionally a fresh sub-process per file, which must agree). (graphs) rapid-generated call models; call graph / call graph with lookup / reverse call graph / API graph generated 2-4 times in a row after a clean start, or (one case in three) a history of 3-6 generations in which the first generation comes again at the end and the ones in between may be of another kind, for another root or from another model (the first half of the classes): every generation equals the first generation of the same graph (same kind, root and model) as edge multiset (and sizes). Non-trivial = a history with more than one file or more than one operation; a graph with >= 2 edges. Distinct = hash of the case.",
 		"graphConnectedCall findings are excluded: they come from a third-party package that accumulates state across calls and they name no file (DESIGN.md section 6 row 22)",
-		"directory-based passes (bad-smell, API) are given a directory holding copies of the listed files; paths are compared relative to that directory",
+		"directory-based passes (bad-smell, API) are given a directory holding copies of the listed files; paths are compared relative to that directory; these passes work through a directory in the order of the directory walk, so for them the order of the list means nothing and only the choice of files varies",
 		"functions inside a type are compared sorted by line: their order is map order (C08)",
-		"the identifier and full passes produce no entry for an enum file, so its slice there is empty in the reference and in every history alike; what such a file is there for is that it must leave the entries of the other files alone")
+		"the identifier and full passes produce no entry for an enum file, so its slice there is empty in the reference and in every history alike; what such a file is there for is that it must leave the entries of the other files alone",
+		"what the passes make of nested, anonymous and second top-level types, of initialiser blocks and of classes without stereotype is not judged (that is C01/C02/C12): only that it is the same in every history as for the file alone",
+		"two generations of a graph are compared only when kind, root and model are the same; a generation from another input in between is there to leave state behind, its own result is compared with its own repetitions only",
+		"layout of the text (line ends, byte order mark, tabs, long lines) and very long or non-ASCII names are not varied beyond what jgen does for this check: no pass keeps state that depends on them")
 	pbt.Register("files", 250, 1000, gen, check)
 	pbt.Register("graphs", 3000, 30000, genGraph, checkGraph)
 }
